@@ -634,6 +634,7 @@ func (l *commitLog) Truncate(offset int64) error {
 	}
 	crashPoint("truncate:replaced")
 	activeSegment := segments[len(segments)-1]
+	activeSegment.Unseal()
 	atomic.StorePointer((*unsafe.Pointer)(unsafe.Pointer(&l.vActiveSegment)),
 		unsafe.Pointer(activeSegment))
 	l.segments = segments
